@@ -19,10 +19,15 @@ P_3S3R == (1 :> <<S(1)>>) @@ (2 :> <<S(2)>>) @@ (3 :> <<S(3)>>) @@ (4 :> <<R>>) 
 \* no close: the other public methods next to send/recv
 P_MISC == (1 :> <<S(1), S(2)>>) @@ (2 :> <<R, R>>) @@ (3 :> <<NW, F({1}), LN>>)
 P_MISC2 == (1 :> <<S(1), S(2), S(3)>>) @@ (2 :> <<R, RC>>) @@ (3 :> <<RC>>) @@ (4 :> <<NW, F({2}), LN, T>>)
+\* quick tier: every public method and a cancellable receive in one small program
+P_QUICK == (1 :> <<S(1), S(2)>>) @@ (2 :> <<R, RC>>) @@ (3 :> <<NW, F({1}), LN, T>>)
 \* one closer
 P_SRC == (1 :> <<S(1)>>) @@ (2 :> <<R, R>>) @@ (3 :> <<C>>)
 P_2S2RC == (1 :> <<S(1)>>) @@ (2 :> <<S(2)>>) @@ (3 :> <<R, R>>) @@ (4 :> <<R>>) @@ (5 :> <<C>>)
 P_S2R2C == (1 :> <<S(1), S(2)>>) @@ (2 :> <<R, R>>) @@ (3 :> <<R, T>>) @@ (4 :> <<C, S(3)>>)
 P_3S3RC == (1 :> <<S(1)>>) @@ (2 :> <<S(2)>>) @@ (3 :> <<S(3)>>) @@ (4 :> <<R, R>>) @@ (5 :> <<R>>) @@ (6 :> <<RC>>) @@ (7 :> <<C>>)
-DomOf(f) == DOMAIN f
+P_3S2RC == (1 :> <<S(1)>>) @@ (2 :> <<S(2)>>) @@ (3 :> <<S(3)>>) @@ (4 :> <<R, R>>) @@ (5 :> <<R>>) @@ (6 :> <<C>>)
+P_S2RRC == (1 :> <<S(1), S(2)>>) @@ (2 :> <<R, R>>) @@ (3 :> <<R>>) @@ (4 :> <<C>>)
+P_SRRC == (1 :> <<S(1)>>) @@ (2 :> <<R>>) @@ (3 :> <<RC>>) @@ (4 :> <<C, S(2)>>)
+P_SRCT == (1 :> <<S(1), S(2)>>) @@ (2 :> <<R, R, R>>) @@ (3 :> <<C, T>>)
 =============================================================================
